@@ -49,7 +49,7 @@ REQUIRED_LABELS = {"all": ["edit:rebuild", "edit:drop_last", "edit:flip_dagger",
                            "edit:swap_commuting", "edit:param_0.0003", "edit:param_1e-5", "maps_differ", "maps_equal", "reported_equal", "reported_different",
                            "edit:swap_overlapping", "edit:reorder_commuting", "edit:permute", "edit:arr_0.0003", "edit:arr_1",
                            "reorder:non_involution", "special:bs_near_symmetric", "special:cx_small", "kw:atol", "kw:compare_params",
-                           "stateful:append_in_place", "measured:symbolic_param", "measured:conditioned", "edit:swap_special"]}
+                           "stateful:append_in_place", "measured:symbolic_param", "measured:conditioned", "edit:swap_special", "edit:select_removed", "select_zero_removed"]}
 
 ALPH = ["Dgate", "Sgate", "Rgate", "BSgate", "S2gate", "MZgate", "CXgate", "CZgate", "Xgate", "Pgate", "Fouriergate", "LossChannel",
         "Coherent", "Squeezed", "Vacuum", "Thermal", "sMZgate", "Zgate", "DisplacedSqueezed", "ThermalLossChannel"]
@@ -62,8 +62,10 @@ KWARGS = [None, None, None, {"atol": 1e-12}, {"atol": 0.0, "rtol": 0.0}, {"rtol"
 MEAS = ("MeasureHomodyne", "MeasureHeterodyne")
 # "select_changed": same program, another post-selection value (finding F70, fixed: == and equivalence() ignored select / dark_counts)
 EDITS_M = ["rebuild", "drop_last", "flip_dagger", "param_1e-3", "param_1", "move_mode", "swap_commuting", "swap_overlapping",
-           "reorder_commuting", "sym_scale_1e-9", "sym_scale_1e-3", "sym_scale_1", "sym_source", "select_changed"]
-SELECT_EDITS = ["select_changed"]
+           "reorder_commuting", "sym_scale_1e-9", "sym_scale_1e-3", "sym_scale_1", "sym_source", "select_changed", "select_removed"]
+# "select_removed": the same measurement without post-selection (a random outcome instead of a projection: never the same program, also
+# when the selected value is exactly 0 - seeded change C18-E tested the option for truthiness)
+SELECT_EDITS = ["select_changed", "select_removed"]
 
 
 def selftest():
@@ -168,9 +170,10 @@ def meas_case(draw):
     hom = []
     for m in measured:
         if hom and not two_sources and draw(st.integers(0, 2)) == 0:
-            ops_.append(["MeasureHeterodyne", [], [m], {"select": {"re": draw(gen.fl(-1.0, 1.0)), "im": draw(gen.fl(-1.0, 1.0))}}])
+            zero = draw(st.integers(0, 3)) == 0
+            ops_.append(["MeasureHeterodyne", [], [m], {"select": {"re": 0.0 if zero else draw(gen.fl(-1.0, 1.0)), "im": 0.0 if zero else draw(gen.fl(-1.0, 1.0))}}])
         else:
-            ops_.append(["MeasureHomodyne", [draw(gen.angle())], [m], {"select": draw(gen.fl(-1.5, 1.5))}])
+            ops_.append(["MeasureHomodyne", [draw(gen.angle())], [m], {"select": draw(st.one_of(gen.fl(-1.5, 1.5), gen.fl(-1.5, 1.5), st.sampled_from([0.0, 0])))}])
             hom.append(m)
         if draw(st.integers(0, 3)) == 0:
             ops_.append(draw(gen.op_spec(n, ALPH, "ps")))
@@ -397,6 +400,16 @@ def apply_edit(case, labels=None):
         leaf = ast if ast[0] == "meas" else ast[2]
         leaf[1] = [m for m in hom if m != leaf[1]][case["newmode"] % (len(hom) - 1)]
         return n, o2
+    if edit == "select_removed":
+        cands = [i for i, o in enumerate(o2) if o[0] in MEAS]
+        if not cands:
+            return None
+        o = o2[cands[idx % len(cands)]]
+        s = o[3]["select"]
+        if labels is not None and (s == 0 if not isinstance(s, dict) else (s["re"] == 0 and s["im"] == 0)):
+            labels.append("select_zero_removed")
+        o[3] = dict(o[3], select=None)
+        return n, o2
     if edit == "select_changed":
         cands = [i for i, o in enumerate(o2) if o[0] in MEAS]
         if not cands:
@@ -562,7 +575,16 @@ def check_pair(ctx, case):
     n1, ops1 = case["n"], case["ops"]
     measured = bool(case.get("measured"))
     symbolic = any(isinstance(p, list) for o in ops1 + ops2 for p in o[1])
-    if measured:
+    if measured and case["edit"] == "select_removed":
+        # B samples where A projects: B has no conditional state to compare with, the programs differ by construction
+        verdict = None if cond_state(n1, ops1) is None else (float("inf"), False)
+        if verdict is not None:
+            d, same = verdict
+            labels += ["measured:conditioned", "measured:symbolic_param" if symbolic else "measured:numeric_only"]
+        else:
+            ctx.note(case, False, ["edit_not_applicable", "measured_value_used_before_measurement"])
+            return None
+    elif measured:
         verdict = states_equal(n1, ops1, ops2)
         if verdict is None:
             ctx.note(case, False, ["edit_not_applicable", "measured_value_used_before_measurement"])
